@@ -124,8 +124,26 @@ NOTES = {
  'C13-disconnect-keeps-own-link': 'disconnect clears only the partner\'s back-link: the terminal it was called on keeps pointing at its ex-partner (one-way link; a later connect of that terminal silently unlinks a third party)',
  'C15-history-getter-reads-clock-twice': 'GetterFromHistory reads its clock twice per get (once for the lookup, once for the returned stamp): only a clock that advances between two reads within one call shows it',
  'C20-actuator-holds-terminal-borrow-during-inner-update': 'actuator wrapper keeps its shared borrow of the terminal alive across `inner.update()`: an inner object that reports back on that terminal from its update panics (already borrowed)',
+ 'C02-none-to-value-exclusive-clock-borrow': 'NoneToValue takes an EXCLUSIVE borrow of its clock when its input is absent: panics (RefCell) or never returns (RwLock) if the caller is itself reading that clock at the time',
+ 'C03-latest-compares-with-previous-candidate': 'newest-of compares each candidate with the PREVIOUS present one instead of the best so far: three or more present inputs stamped high, low, middle',
+ 'C04-negative-gain-terms-skipped': 'PID skips the integral / derivative term unless its gain is > 0: negative ki or kd (reverse-acting loops)',
+ 'C05-freeze-get-reads-live-when-unfrozen': 'FreezeStream::get reads condition and input live while the condition is false: a get between an input change and the next update sees the new value',
+ 'C12-maf-repeated-stamp-overwrites-newest': 'f32 moving average keeps one entry per timestamp and lets the LATER sample of a repeated stamp win',
+ 'C16-disconnect-skips-borrowed-partner': 'disconnect uses try_borrow_mut on the partner and silently skips it when it is borrowed: the partner keeps a link into a device that is then (legitimately) dropped',
+ 'C17-to-dyn-evaluates-argument-twice': 'to_dyn! expands its argument expression twice ("type assertion"): `pool.pop().unwrap()` converts a different Reference than the one popped first, `slot.take().unwrap()` panics',
+ 'C19-unchecked-quantity-eq-via-partial-ord': 'builds without dimension checking only: Quantity == is "neither < nor >", so NaN == anything',
 }
 HISTORY = {
+ 'C02-none-to-value-exclusive-clock-borrow': 'MISSED at both tiers: the harness never looked at a leaf or a clock itself while a node was being read. Scripted clocks can now be ONE shared Reference (Rc or RwLock, header `clockref`), '
+   'and the second read of every RR step happens while shared borrows of all shared leaf and clock References are alive; it must not panic, must return (watchdog) and must equal the first read. The stateful-stream world does the same in a fifth of its runs (header `hold_inputs`: shared borrows of the node\'s input References are alive during every update and read). Caught at quick tier since '
+   '(`C02|hang|comb`, `C02|panic_while_inputs_borrowed|n2v`).',
+ 'C16-disconnect-skips-borrowed-partner': 'caught by C09/quick (half a link after a refused operation, added the round before) but MISSED by C16: the Miri device programs only had "device dropped while linked" shapes and a plain control. New '
+   'control (crash kind 3, all eleven accessors at thorough tier): link operations refused while the outer terminal is being read, then an orderly disconnect from the device\'s side, the device\'s scope ends, the survivors are '
+   'used. Clean on the pinned tree; with the change Miri reports the use-after-free. (Writing it showed that `drop(dev)` of a local leaves its stack slot allocated: the device now lives in an inner block.) Caught by C16/quick since.',
+ 'C17-to-dyn-evaluates-argument-twice': 'MISSED at both tiers: every `to_dyn!` argument in the harness was a variable or a `.clone()`, for which evaluating twice is invisible. The reference world now also passes a block with a side effect '
+   '(must be evaluated exactly once) and `slot.take().unwrap()`; the #![no_std] caller uses the latter as well. Caught at quick tier since (`C17|to_dyn_panics`, `C17|aliasing`).',
+ 'C19-unchecked-quantity-eq-via-partial-ord': 'MISSED at both tiers: the value-level API world compared Quantities only for ordinary operands, and only with `==` and `partial_cmp`. It now enumerates all six comparison operators and both '
+   'directions of `partial_cmp` over a 12 x 12 grid (NaN, +-inf, +-0, +-MAX, subnormal, ordinary) at the start of every batch, and one random operand in ten is such a value. Caught at quick tier since.',
  'C02-product2-multiplies-in-reverse-order': 'MISSED at both tiers: every combinator was instantiated at f32, Quantity and bool, whose operators commute bit for bit, so "in input order" and its mirror image '
    'were indistinguishable. New world `word` (sim/src/words.rs, one C02 run in sixteen): the six arithmetic combinators over a payload whose +, -, *, / are a free magma hashed into 64 bits - neither commutative nor '
    'associative - so the result fingerprints the whole expression tree (operator, operand sides, grouping of the n-ary fold); all category pairs x stamp orders enumerated, Sum2 / Product2 also compared with the n-ary '
